@@ -4,10 +4,27 @@
    extracted inductives.  No Extract Constant / Extract Inductive of our own. *)
 From Coq Require Import ExtrOcamlBasic.
 From Coq Require Import List ZArith NArith.
-From IprV Require Import RBModel Comparators.
+From IprV Require Import RBModel Comparators Scope.
+(* stable, unambiguous names for the driver *)
+Definition rb_find := RBModel.find.
+Definition rb_elements := RBModel.elements.
+Definition rb_height := RBModel.height.
+Definition rb_size := RBModel.size.
+Definition rb_insert_owning := RBModel.insert_owning.
+Definition rb_insert_chain := RBModel.insert_chain.
+Definition rb_insert_tags := RBModel.insert_tags.
+Definition scope_run := Scope.run.
+Definition scope_elements := Scope.elements.
+Definition scope_types := Scope.scope_type.
+Definition scope_lookup := Scope.lookup.
+Definition scope_select := Scope.select.
+Definition scope_decl_set := Scope.decl_set.
+Definition scope_master := Scope.master.
+Definition scope_h_run := Scope.h_run.
+
 Extraction Language OCaml.
 Extraction "extracted/model.ml"
-  RBModel.insert_owning RBModel.insert_chain RBModel.find RBModel.rb_empty
-  RBModel.insert_tags RBModel.elements RBModel.height RBModel.size
+  rb_insert_owning rb_insert_chain rb_find RBModel.rb_empty rb_insert_tags rb_elements rb_height rb_size
   Comparators.int_cmp Comparators.lex_cmp Comparators.pair_cmp
-  Z.sub Z.add Z.of_nat Z.to_nat N.of_nat N.to_nat.
+  Z.sub Z.add Z.of_nat Z.to_nat N.of_nat N.to_nat
+  scope_run scope_elements scope_types scope_lookup scope_select scope_decl_set scope_master scope_h_run.
